@@ -45,12 +45,6 @@ def sampleInserted : St := insertB (insertA (genesisState sampleG) sampleB) samp
 /-- … and removing it again -/
 def sampleRemoved : St := (remove (sampleInserted.arm none) sampleB).1
 
-/-- `insertBlock`'s statements, in the order of the source. -/
-theorem insert_order : insertBlockCalls =
-    ["markAddBlock", "saveBlockByHash", "saveBlockByHeight", "saveStates", "updateVerifyHash", "updateTxPool",
-     "topBlocks.Add(remoteBlock.Header.Height, remoteBlock.Header)", "updateLastBlock", "eraseAddBlockMark",
-     "successOnChainCallBack"] := by decide
-
 /-- The pool is updated (executed marks written) before the recorded head moves and before the add mark is
     erased — the order `inv_crash_pool` depends on. -/
 theorem txpool_before_head_and_mark :
@@ -59,18 +53,20 @@ theorem txpool_before_head_and_mark :
     insertBlockCalls.idxOf "markAddBlock" = 0 ∧ insertBlockCalls.idxOf "eraseAddBlockMark" < insertBlockCalls.length := by
   decide
 
-/-- The write sequence of the model's `insertBlock` IS the source's statement order. -/
+/-- The write sequence of the model's `insertBlock` IS the source's statement order (memory-only statements
+    may move between the writes, every call must be a known one). -/
 theorem insert_order_is_model :
     (insertBlockCalls.map callTok).flatten = sampleInserted.log.reverse.map tokName := by decide
 
-/-- `remove`'s statements in source order, cache evictions with their keys: the height-keyed cache is
-    evicted by height, the hash-keyed cache by hash. -/
-theorem remove_order : removeCalls =
-    ["getReceipts", "markRemoveBlock", "hashDB.Delete(hash.Bytes())", "heightDB.Delete(generateHeightKey(height))",
-     "verifyHashDB.Delete(utility.UInt64ToByte(height))", "topBlocks.Remove(height)", "verifiedBlocks.Remove(hash)",
-     "queryBlockByHash", "heightDB.Put([]byte(latestBlockKey), preHeaderByte)", "transactionPool.UnMarkExecuted(block)",
-     "eraseRemoveBlockMark", "notifyRemovedLogs"] := by decide
+/-- `remove` evicts the height-keyed cache by height and the hash-keyed cache by hash (wherever among the
+    memory-only statements; a call with any other argument is unknown to `callTok` and breaks
+    `remove_order_is_model`). -/
+theorem cache_eviction_keys :
+    "topBlocks.Remove(height)" ∈ removeCalls ∧ "verifiedBlocks.Remove(hash)" ∈ removeCalls ∧
+    "topBlocks.Add(remoteBlock.Header.Height, remoteBlock.Header)" ∈ insertBlockCalls := by decide
 
+/-- The write sequence of the model's `remove` IS the source's statement order (memory-only statements may
+    move between the writes, every call must be a known one). -/
 theorem remove_order_is_model :
     (removeCalls.map callTok).flatten = sampleRemoved.log.reverse.map tokName := by decide
 
